@@ -348,10 +348,14 @@ Fixpoint may (flag : Item -> bool) (items : list Item) : bool :=
   | it :: r => flag it || (it_empty it && may flag r)
   end.
 
+(* a white-space item takes the space padding of a number that follows it ([absorb]); two white-space
+   items in a row are outside the class *)
+Definition next_padspace (r : list Item) : bool := match r with INumeric _ PadSpace :: _ => true | _ => false end.
+Definition next_not_space (r : list Item) : bool := match r with Space _ :: _ => false | _ => true end.
 Definition it_static (it : Item) (r : list Item) : bool :=
   match it with
   | Literal l => ascii_bb l
-  | Space s => forallb ws_byte s && negb (may it_ws r)
+  | Space s => forallb ws_byte s && next_not_space r && (negb (may it_ws r) || next_padspace r)
   | INumeric spec pad =>
       match nfield_of spec with
       | Some f => num_static f && (num_full f (dpad_of pad) || negb (may it_digit r))
@@ -393,7 +397,7 @@ Proof.
   - apply Some_inj in Hd. subst t. split; [exact (ascii_bb_sound l Hs)|].
     destruct l as [|c l']; [reflexivity|]. cbn [ascii_bb forallb] in Hs. apply andb_prop in Hs. destruct Hs as [Hc _].
     cbn [head_ok it_digit it_ws it_dot]. split; [lia|]. split; [auto|]. split; [auto|]. intros ->. reflexivity.
-  - apply Some_inj in Hd. subst t. apply andb_prop in Hs. destruct Hs as [Hw _].
+  - apply Some_inj in Hd. subst t. apply andb_prop in Hs. destruct Hs as [Hs _]. apply andb_prop in Hs. destruct Hs as [Hw _].
     split.
     + pose proof (forallb_ws_byte l Hw) as H. unfold ascii_ws in H. clear - H.
       induction H as [|c r [Hc _] _ IH]; constructor; assumption.
@@ -447,43 +451,6 @@ Lemma ascii_valid l : ascii_b l -> utf8_valid l = true.
 Proof. intros H. rewrite <- (app_nil_r l). rewrite utf8_valid_app_ascii by exact H. reflexivity. Qed.
 Lemma bytes_eqb_refl l : bytes_eqb l l = true.
 Proof. induction l as [|c r IH]; [reflexivity|]. cbn [bytes_eqb]. rewrite Z.eqb_refl, IH. reflexivity. Qed.
-
-(** for EVERY value: the documented renderings of a list of the class are taken back by the reader *)
-Theorem static_accept sv on : sv_bounds sv -> (forall o, sv_off sv = Some o -> o mod 60 = 0) ->
-  forall items texts, static_ok items = true ->
-  Forall2 (doc_item sv on) items texts ->
-  exists ws, unambiguous_b (combine items texts) [] = Some ws.
-Proof.
-  intros Bsv Hmin. induction items as [|it r IH]; intros texts Hs HF; inversion HF as [|? t ? ts [Hd Hfr] Hr]; subst.
-  - exists []. reflexivity.
-  - cbn [static_ok] in Hs. apply andb_prop in Hs. destruct Hs as [Hit Hsr].
-    destruct (IH ts Hsr Hr) as (ws & Hws).
-    destruct (may_sound sv on Bsv r ts Hsr Hr) as (A0 & A1 & A2 & A3).
-    cbn [combine unambiguous_b]. rewrite Hws.
-    rewrite text_of_combine by (exact (F2_length _ _ _ Hr)). rewrite app_nil_r.
-    set (rest := concat ts) in *. pose proof (ascii_valid rest A0) as Hv.
-    assert (Hex : exists w, reads_b it t rest = Some w).
-    { destruct it as [l|l|spec pad|spec|]; cbn [it_static doc_render reads_b] in *.
-      - apply Some_inj in Hd. subst t. rewrite bytes_eqb_refl, (utf8_valid_starts_ok rest Hv). eexists. reflexivity.
-      - apply Some_inj in Hd. subst t. apply andb_prop in Hit. destruct Hit as [Hw Hm].
-        rewrite Hw. rewrite (A2 ltac:(destruct (may it_ws r); [discriminate Hm|reflexivity])). eexists. reflexivity.
-      - destruct (nfield_of spec) as [f|] eqn:Ef; [|discriminate Hd].
-        destruct (render_num sv f (dpad_of pad)) as [s| |] eqn:Er; try discriminate Hd. apply Some_inj in Hd. subst s.
-        apply andb_prop in Hit. destruct Hit as [Hst Hfull].
-        rewrite <- (nfield_of_numeric spec f Ef).
-        apply (num_accept sv f (dpad_of pad) t rest Bsv Hst Er Hv).
-        apply orb_prop in Hfull. destruct Hfull as [Hfull|Hfull]; [left; exact Hfull|right].
-        apply A1. destruct (may it_digit r); [discriminate Hfull|reflexivity].
-      - destruct (tfield_of spec) as [f|] eqn:Ef; [|discriminate Hd].
-        destruct (render_fix sv f) as [s| |] eqn:Er; try discriminate Hd. apply Some_inj in Hd. subst s.
-        destruct (tfield_of_supported spec f Ef) as [Hsup Hspec]. rewrite <- Hspec.
-        apply andb_prop in Hit. destruct Hit as [H1 H2].
-        apply (fix_accept sv f t rest Bsv Hmin Hsup Er Hv).
-        + intros Hn. rewrite Hn in H1. cbn [negb orb] in H1. apply A1. destruct (may it_digit r); [discriminate H1|reflexivity].
-        + intros Hn. rewrite Hn in H2. cbn [negb orb] in H2. apply A3. destruct (may it_dot r); [discriminate H2|reflexivity].
-      - discriminate Hd. }
-    destruct Hex as (w & ->). eexists. reflexivity.
-Qed.
 
 (** * 5. which fields the recognised writes set: read off the items *)
 Definition wfields (w : write) : list field :=
@@ -662,6 +629,160 @@ Proof.
   cbn [shape_parsed fold_right]. fold (shape_parsed r). rewrite presence_pput, IH. reflexivity.
 Qed.
 
+(** * 5b. acceptance for every value *)
+(* a fraction item prints nothing only when it is %.f and the value has no fraction *)
+Lemma doc_render_empty sv it r : sv_bounds sv -> it_static it r = true -> doc_render sv it = Some [] ->
+  ifields it = [F_nanosecond] -> sv_nano sv = 0.
+Proof.
+  intros Bsv Hs Hd Hi. destruct (item_head sv it r [] Bsv Hs Hd) as [_ Hh]. cbn [head_ok] in Hh.
+  destruct it as [l|l|spec pad|spec|]; cbn [ifields it_empty doc_render] in *; try discriminate Hi; try discriminate Hh.
+  destruct (tfield_of spec) as [f|] eqn:Ef; [|discriminate Hd].
+  destruct (render_fix sv f) as [x| |] eqn:Er; try discriminate Hd. apply Some_inj in Hd. subst x.
+  destruct f; try discriminate Hh. unfold render_fix in Er.
+  destruct (sv_sod sv) as [s0|]; [|discriminate Er]. apply ROk_inj in Er.
+  destruct (sv_nano sv =? 0) eqn:E0; [lia|].
+  destruct (sv_nano sv mod 1000000 =? 0); [discriminate Er|]. destruct (sv_nano sv mod 1000 =? 0); discriminate Er.
+Qed.
+Lemma classic_space it : (exists s, it = Space s) \/ (forall s, it <> Space s).
+Proof. destruct it; try (right; intros s0 Hc; discriminate Hc). left. eexists. reflexivity. Qed.
+
+(* one item of the class other than white space, in front of a well-formed ASCII rest that starts as
+   the look-ahead of the remaining items allows *)
+Lemma item_accept sv it r t rest : sv_bounds sv -> (forall o, sv_off sv = Some o -> o mod 60 = 0) ->
+  (forall s, it <> Space s) -> it_static it r = true -> doc_render sv it = Some t -> utf8_valid rest = true ->
+  (may it_digit r = false -> not_digit_start rest = true) ->
+  (may it_dot r = false -> starts_with_byte rest 46 = false) ->
+  exists w, reads_b it t rest = Some w.
+Proof.
+  intros Bsv Hmin Hns Hit Hd Hv A1 A3.
+  destruct it as [l|l|spec pad|spec|]; cbn [it_static doc_render reads_b] in *.
+  - apply Some_inj in Hd. subst t. rewrite bytes_eqb_refl, (utf8_valid_starts_ok rest Hv). eexists. reflexivity.
+  - exfalso. exact (Hns l eq_refl).
+  - destruct (nfield_of spec) as [f|] eqn:Ef; [|discriminate Hd].
+    destruct (render_num sv f (dpad_of pad)) as [s| |] eqn:Er; try discriminate Hd. apply Some_inj in Hd. subst s.
+    apply andb_prop in Hit. destruct Hit as [Hst Hfull].
+    rewrite <- (nfield_of_numeric spec f Ef).
+    apply (num_accept sv f (dpad_of pad) t rest Bsv Hst Er Hv).
+    apply orb_prop in Hfull. destruct Hfull as [Hfull|Hfull]; [left; exact Hfull|right].
+    apply A1. destruct (may it_digit r); [discriminate Hfull|reflexivity].
+  - destruct (tfield_of spec) as [f|] eqn:Ef; [|discriminate Hd].
+    destruct (render_fix sv f) as [s| |] eqn:Er; try discriminate Hd. apply Some_inj in Hd. subst s.
+    destruct (tfield_of_supported spec f Ef) as [Hsup Hspec]. rewrite <- Hspec.
+    apply andb_prop in Hit. destruct Hit as [H1 H2].
+    apply (fix_accept sv f t rest Bsv Hmin Hsup Er Hv).
+    + intros Hn. rewrite Hn in H1. cbn [negb orb] in H1. apply A1. destruct (may it_digit r); [discriminate H1|reflexivity].
+    + intros Hn. rewrite Hn in H2. cbn [negb orb] in H2. apply A3. destruct (may it_dot r); [discriminate H2|reflexivity].
+  - discriminate Hd.
+Qed.
+
+Lemma absorb_nonspace it t l : (forall s, it <> Space s) -> absorb ((it, t) :: l) = (it, t) :: absorb l.
+Proof. intros H. cbn [absorb]. destruct it; try reflexivity. exfalso. exact (H _ eq_refl). Qed.
+
+(* a pair whose text is empty although the item writes the fraction: the value has no fraction *)
+Definition empty_frac_pair (sv : sval) (x : Item * bytes) : Prop :=
+  snd x = [] -> ifields (fst x) = [F_nanosecond] -> sv_nano sv = 0.
+
+(** for EVERY value: the documented renderings of a list of the class are taken back by the reader,
+    white space of the format absorbing the space padding of the number that follows it *)
+Theorem static_accept sv on : sv_bounds sv -> (forall o, sv_off sv = Some o -> o mod 60 = 0) ->
+  forall items texts, static_ok items = true ->
+  Forall2 (doc_item sv on) items texts ->
+  exists ws, unambiguous_b (absorb (combine items texts)) [] = Some ws /\
+             Forall (empty_frac_pair sv) (absorb (combine items texts)).
+Proof.
+  intros Bsv Hmin. induction items as [|it r IH]; intros texts Hs HF; inversion HF as [|? t ? ts [Hd Hfr] Hr]; subst.
+  - exists []. split; [reflexivity|constructor].
+  - cbn [static_ok] in Hs. apply andb_prop in Hs. destruct Hs as [Hit Hsr].
+    destruct (IH ts Hsr Hr) as (ws & Hws & HE).
+    destruct (may_sound sv on Bsv r ts Hsr Hr) as (A0 & A1 & A2 & A3).
+    pose proof (text_of_absorb (combine r ts)) as Eta. rewrite text_of_combine in Eta by (exact (F2_length _ _ _ Hr)).
+    pose proof (ascii_valid (concat ts) A0) as Hv.
+    assert (Hemp : empty_frac_pair sv (it, t)).
+    { intros E1 E2. cbn [fst snd] in E1, E2. subst t. exact (doc_render_empty sv it r Bsv Hit Hd E2). }
+    cbn [combine].
+    destruct (classic_space it) as [[s ->]|Hns].
+    + (* a white-space item *)
+      cbn [doc_render] in Hd. apply Some_inj in Hd. subst t.
+      cbn [it_static] in Hit. apply andb_prop in Hit. destruct Hit as [Hit Hallow]. apply andb_prop in Hit. destruct Hit as [Hw Hnsp].
+      cbn [absorb]. destruct (absorb (combine r ts)) as [|[it2 t2] r'] eqn:Ea.
+      * exists [W_none]. split; [|constructor; [exact Hemp|constructor]].
+        cbn [unambiguous_b text_of app reads_b]. rewrite Hw. reflexivity.
+      * (* the next item is not white space: its pair is at the head of the absorbed rest, unchanged *)
+        destruct r as [|it2' r2]; [inversion Hr; subst; discriminate Ea|].
+        inversion Hr as [|? t2' ? ts2 [Hd2 _] Hr2]; subst.
+        assert (Hns2 : forall s0, it2' <> Space s0).
+        { intros s0 ->. discriminate Hnsp. }
+        cbn [combine] in Ea. rewrite (absorb_nonspace it2' t2' _ Hns2) in Ea. injection Ea as <- <- <-.
+        cbn [unambiguous_b] in Hws.
+        destruct (reads_b it2' t2' (text_of (absorb (combine r2 ts2)) ++ [])) as [w2|] eqn:Ew2; [|discriminate Hws].
+        destruct (unambiguous_b (absorb (combine r2 ts2)) []) as [ws'|] eqn:Er'; [|discriminate Hws].
+        cbn [text_of] in Eta. cbn [concat] in Eta, A0, A2, Hv.
+        inversion HE as [|? ? HE2 HEr]; subst.
+        destruct (split_ws_spec t2') as [Ht2 Hpre]. destruct (split_ws t2') as [pre body] eqn:Esp. cbn [fst snd] in Ht2, Hpre.
+        assert (Hcase : (pre = [] /\ body = t2' /\ starts_ws (t2' ++ text_of (absorb (combine r2 ts2)) ++ []) = false) \/
+                        (exists spec, it2' = INumeric spec PadSpace /\ body <> [] /\
+                           starts_ws (body ++ text_of (absorb (combine r2 ts2)) ++ []) = false)).
+        { apply orb_prop in Hallow. destruct Hallow as [Hm|Hm].
+          - left. assert (Hm' : may it_ws (it2' :: r2) = false) by (destruct (may it_ws (it2' :: r2)); [discriminate Hm|reflexivity]).
+            pose proof (A2 Hm') as Hsw. rewrite <- Eta in Hsw.
+            assert (Hsp : split_ws t2' = ([], t2')).
+            { apply split_ws_nows. destruct t2' as [|c t2r]; [exact I|].
+              cbn [static_ok] in Hsr. apply andb_prop in Hsr. destruct Hsr as [Hit2 _].
+              destruct (item_head sv it2' r2 (c :: t2r) Bsv Hit2 Hd2) as [_ Hh]. cbn [head_ok] in Hh. destruct Hh as (Hc & _).
+              cbn [app] in Hsw. rewrite starts_ws_ascii in Hsw by exact Hc. unfold ws_byte. rewrite Hsw. apply andb_false_r. }
+            rewrite Hsp in Esp. injection Esp as <- <-. rewrite app_nil_r. auto.
+          - right. destruct it2' as [ | |spec pad| |]; try discriminate Hm. destruct pad; try discriminate Hm.
+            exists spec. split; [reflexivity|].
+            cbn [doc_render] in Hd2. destruct (nfield_of spec) as [f|]; [|discriminate Hd2].
+            destruct (render_num sv f (dpad_of PadSpace)) as [x| |] eqn:Er; try discriminate Hd2. apply Some_inj in Hd2. subst x.
+            unfold render_num in Er. destruct (negb (width_documented f (dpad_of PadSpace))); [discriminate Er|].
+            destruct (num_value sv f) as [x| |]; try discriminate Er. apply ROk_inj in Er.
+            set (force := match f with NYear | NIsoYear => (x <? 0) || (9999 <? x) | _ => false end) in *. clearbody force.
+            destruct (pad_num_shape DSpace (num_width f) force x) as (sp & ZD & Esh & HZ & HlZ & _).
+            cbn [dpad_of] in Er. rewrite Esh in Er. rewrite <- Er in Esp.
+            set (sign := if x <? 0 then [45] else if force then [43] else []) in *.
+            assert (Hb : exists c b', sign ++ ZD = c :: b' /\ 0 <= c <= 127 /\ is_whitespace c = false).
+            { unfold sign. destruct (x <? 0); [eexists; eexists; split; [reflexivity|split; [lia|reflexivity]]|].
+              destruct force;
+                [eexists; eexists; split; [reflexivity|split; [lia|reflexivity]]|].
+              cbn [app]. destruct ZD as [|c zr]; [rewrite blen_nil in HlZ; lia|]. cbn [forallb] in HZ. apply andb_prop in HZ.
+              destruct HZ as [Hc _]. pose proof (digit_range c Hc). exists c, zr. split; [reflexivity|]. split; [lia|unfold is_whitespace; lia]. }
+            destruct Hb as (c & b' & Eb & Hc & Hwc).
+            rewrite split_ws_spaces in Esp by (rewrite Eb; unfold ws_byte; rewrite Hwc; apply andb_false_r).
+            injection Esp as <- <-. rewrite Eb. split; [discriminate|]. cbn [app]. rewrite starts_ws_ascii by exact Hc. exact Hwc. }
+        assert (Hws_pre : forallb ws_byte (s ++ pre) = true).
+        { rewrite forallb_app, Hw. cbn [andb]. clear - Hpre. unfold ascii_ws in Hpre.
+          induction Hpre as [|c r0 [Hc Hwc] _ IHp]; [reflexivity|]. cbn [forallb]. rewrite IHp.
+          unfold ws_byte. rewrite Hwc. replace ((0 <=? c) && (c <=? 127)) with true by lia. reflexivity. }
+        assert (Hread2 : reads_b it2' body (text_of (absorb (combine r2 ts2)) ++ []) = Some w2).
+        { destruct Hcase as [(E1 & E2 & _)|(spec & -> & _ & _)].
+          - rewrite E2. exact Ew2.
+          - cbn [reads_b] in *. rewrite Ht2 in Ew2. rewrite reads_numeric_strip in Ew2 by exact Hpre. exact Ew2. }
+        exists (W_none :: w2 :: ws'). split.
+        -- cbn [unambiguous_b text_of reads_b]. rewrite Hws_pre.
+           assert (Hsw : starts_ws ((body ++ text_of (absorb (combine r2 ts2))) ++ []) = false).
+           { destruct Hcase as [(E1 & E2 & Hsw)|(spec & _ & _ & Hsw)]; [rewrite E2|]; rewrite <- app_assoc; exact Hsw. }
+           rewrite Hsw. cbn [negb andb]. rewrite Hread2, Er'. reflexivity.
+        -- constructor; [intros _ E2; discriminate E2|]. constructor; [|exact HEr].
+           intros E1 E2. cbn [fst snd] in E1, E2. subst body.
+           destruct Hcase as [(_ & E2' & _)|(spec & _ & Hne & _)]; [|contradiction].
+           apply HE2; [symmetry; exact E2'|exact E2].
+    + (* any other item: its pair is unchanged *)
+      rewrite (absorb_nonspace it t _ Hns).
+      destruct (item_accept sv it r t (concat ts) Bsv Hmin Hns Hit Hd Hv A1 A3) as (w & Hw).
+      exists (w :: ws). split.
+      * cbn [unambiguous_b]. rewrite Eta, app_nil_r, Hw, Hws. reflexivity.
+      * constructor; [exact Hemp|exact HE].
+Qed.
+
+Corollary static_accept_ws sv on : sv_bounds sv -> (forall o, sv_off sv = Some o -> o mod 60 = 0) ->
+  forall items texts, static_ok items = true -> Forall2 (doc_item sv on) items texts ->
+  exists ws, unambiguous_ws_b (combine items texts) [] = Some ws.
+Proof.
+  intros Bsv Hmin items texts Hs HF.
+  destruct (static_accept sv on Bsv Hmin items texts Hs HF) as (ws & H & _). exists ws. exact H.
+Qed.
+
 (** * 6. sufficient combinations read off the items *)
 Definition static_date_ok (items : list Item) : bool := date_comb_b 0 0 (shape_parsed (sfields items)).
 Definition static_time_ok (items : list Item) : bool := time_comb_b (shape_parsed (sfields items)).
@@ -718,12 +839,12 @@ Proof.
 Qed.
 
 (* presence in the record the reader builds *)
-Lemma real_presence items texts ws : List.length items = List.length texts ->
-  unambiguous_b (combine items texts) [] = Some ws ->
+Lemma real_presence items l ws : map fst l = items ->
+  unambiguous_b l [] = Some ws ->
   (forall f, f <> F_nanosecond -> some_b (pget f (apply_ws ws parsed_new)) = some_b (pget f (shape_parsed (sfields items)))) /\
   (some_b (p_nanosecond (apply_ws ws parsed_new)) = true -> some_b (p_nanosecond (shape_parsed (sfields items))) = true).
 Proof.
-  intros Hl HU. pose proof (ws_shape _ _ _ HU) as HS. rewrite map_fst_combine in HS by exact Hl.
+  intros Hl HU. pose proof (ws_shape _ _ _ HU) as HS. rewrite Hl in HS.
   assert (Hnew : forall f, some_b (pget f parsed_new) = false) by (intros f; destruct f; reflexivity).
   split.
   - intros f Hf. rewrite presence_ws, Hnew, orb_false_r, shape_present. exact (proj1 (HS f) Hf).
@@ -821,34 +942,19 @@ Proof.
   pose proof (Z.mul_div_le (sv_nano sv) (10 ^ (9 - k)) Hpos). lia.
 Qed.
 
-(* a fraction item prints nothing only when it is %.f and the value has no fraction *)
-Lemma doc_render_empty sv it r : sv_bounds sv -> it_static it r = true -> doc_render sv it = Some [] ->
-  ifields it = [F_nanosecond] -> sv_nano sv = 0.
+Lemma nano_absent_zero sv : forall l tail ws, Forall (empty_frac_pair sv) l -> unambiguous_b l tail = Some ws ->
+  fmem F_nanosecond (sfields (map fst l)) = true -> fmem F_nanosecond (concat (map wfields ws)) = false -> sv_nano sv = 0.
 Proof.
-  intros Bsv Hs Hd Hi. destruct (item_head sv it r [] Bsv Hs Hd) as [_ Hh]. cbn [head_ok] in Hh.
-  destruct it as [l|l|spec pad|spec|]; cbn [ifields it_empty doc_render] in *; try discriminate Hi; try discriminate Hh.
-  destruct (tfield_of spec) as [f|] eqn:Ef; [|discriminate Hd].
-  destruct (render_fix sv f) as [x| |] eqn:Er; try discriminate Hd. apply Some_inj in Hd. subst x.
-  destruct f; try discriminate Hh. unfold render_fix in Er.
-  destruct (sv_sod sv) as [s0|]; [|discriminate Er]. apply ROk_inj in Er.
-  destruct (sv_nano sv =? 0) eqn:E0; [lia|].
-  destruct (sv_nano sv mod 1000000 =? 0); [discriminate Er|]. destruct (sv_nano sv mod 1000 =? 0); discriminate Er.
-Qed.
-Lemma nano_absent_zero sv on : sv_bounds sv -> forall items texts tail ws, static_ok items = true ->
-  Forall2 (doc_item sv on) items texts -> unambiguous_b (combine items texts) tail = Some ws ->
-  fmem F_nanosecond (sfields items) = true -> fmem F_nanosecond (concat (map wfields ws)) = false -> sv_nano sv = 0.
-Proof.
-  intros Bsv. induction items as [|it r IH]; intros texts tail ws Hs HF HU Hm Ha; inversion HF as [|? t ? ts [Hd _] Hr]; subst.
+  induction l as [|[it t] r IH]; intros tail ws HE HU Hm Ha; inversion HE as [|? ? Hx Hr]; subst.
   - discriminate Hm.
-  - cbn [static_ok] in Hs. apply andb_prop in Hs. destruct Hs as [Hit Hsr].
-    cbn [combine unambiguous_b] in HU.
-    destruct (reads_b it t (text_of (combine r ts) ++ tail)) as [w|] eqn:Ew; [|discriminate HU].
-    destruct (unambiguous_b (combine r ts) tail) as [ws'|] eqn:Er; [|discriminate HU]. apply Some_inj in HU. subst ws.
-    unfold sfields in Hm. cbn [map concat] in Hm, Ha. rewrite fmem_app in Hm, Ha.
+  - cbn [unambiguous_b] in HU.
+    destruct (reads_b it t (text_of r ++ tail)) as [w|] eqn:Ew; [|discriminate HU].
+    destruct (unambiguous_b r tail) as [ws'|] eqn:Er; [|discriminate HU]. apply Some_inj in HU. subst ws.
+    unfold sfields in Hm. cbn [map fst concat] in Hm, Ha. rewrite fmem_app in Hm, Ha.
     apply orb_false_elim in Ha. destruct Ha as [Ha1 Ha2].
     destruct (reads_shape it t _ w Ew) as [E|(E0 & E1 & E2)].
-    + rewrite <- E, Ha1 in Hm. cbn [orb] in Hm. exact (IH ts tail ws' Hsr Hr Er Hm Ha2).
-    + subst t. exact (doc_render_empty sv it r Bsv Hit Hd E2).
+    + rewrite <- E, Ha1 in Hm. cbn [orb] in Hm. exact (IH tail ws' Hr Er Hm Ha2).
+    + exact (Hx E0 E2).
 Qed.
 
 (* the time of day the printed fields denote, read off the item list: [k] the fraction precision *)
@@ -858,15 +964,15 @@ Definition static_time_value (items : list Item) (k : Z) (t : Model.Time.ntime) 
          (leap_part t + (if fmem F_nanosecond (sfields items) then nano9 t / 10 ^ (9 - k) * 10 ^ (9 - k) else 0))
   else Model.Time.mk_time (Model.Time.tsecs t / 60 * 60) 0.
 
-Lemma time_value_static sv k items texts ws t :
-  sv_bounds sv -> sv_nano sv = nano9 t -> valid_time t -> static_ok items = true -> static_time_ok items = true ->
-  Forall2 (doc_item sv (on_of sv k)) items texts -> unambiguous_b (combine items texts) [] = Some ws ->
+Lemma time_value_static sv k items l ws t :
+  sv_nano sv = nano9 t -> valid_time t -> static_time_ok items = true ->
+  map fst l = items -> Forall (empty_frac_pair sv) l -> unambiguous_b l [] = Some ws ->
   (forall v, p_second (apply_ws ws parsed_new) = Some v -> v = ss t) ->
   (forall n, p_nanosecond (apply_ws ws parsed_new) = Some n -> on_of sv k = Some n) ->
   time_kept (apply_ws ws parsed_new) t = static_time_value items k t.
 Proof.
-  intros Bsv En Hvt Hs Hct HF HU V4 V5. set (p := apply_ws ws parsed_new) in *.
-  destruct (real_presence items texts ws (F2_length _ _ _ HF) HU) as [HP HN]. fold p in HP, HN.
+  intros En Hvt Hct Hl HE HU V4 V5. set (p := apply_ws ws parsed_new) in *.
+  destruct (real_presence items l ws Hl HU) as [HP HN]. fold p in HP, HN.
   assert (Hnew : forall f, some_b (pget f parsed_new) = false) by (intros f; destruct f; reflexivity).
   pose proof (HP F_second ltac:(discriminate)) as Esec. rewrite shape_present in Esec. cbn [pget] in Esec.
   assert (Enano : some_b (p_nanosecond p) = fmem F_nanosecond (concat (map wfields ws))).
@@ -886,7 +992,7 @@ Proof.
     + destruct (p_nanosecond p) as [n|] eqn:Epn; cbn [unwrap_or].
       * pose proof (V5 n eq_refl) as E. unfold on_of in E. apply Some_inj in E. rewrite En in E. symmetry. exact E.
       * cbn [some_b] in Enano. symmetry in Enano.
-        pose proof (nano_absent_zero sv (on_of sv k) Bsv items texts [] ws Hs HF HU Enf Enano) as Ez.
+        pose proof (nano_absent_zero sv l [] ws HE HU ltac:(rewrite Hl; exact Enf) Enano) as Ez.
         rewrite <- En, Ez. rewrite Zdiv_0_l, Z.mul_0_l. reflexivity.
     + destruct (p_nanosecond p) as [n|] eqn:Epn; [|reflexivity]. specialize (HN' eq_refl). congruence.
   - destruct (p_second p) as [v|] eqn:Ev; [discriminate Esec|].
@@ -908,10 +1014,11 @@ Proof.
   pose proof (args_bounds _ sv (args_view_date y o d H) ltac:(cbn; lia)) as Bsv.
   destruct (static_render sv None true false false ltac:(intros _; discriminate) ltac:(intros Hx; discriminate Hx) ltac:(intros Hx; discriminate Hx) items Hs Hk) as (texts & HF).
   { rewrite Forall_forall. intros it Hin. left. rewrite forallb_forall in Hk. exact (kind_no_time_item sv true false it (Hk it Hin)). }
-  destruct (static_accept sv None Bsv ltac:(let Hq := fresh in intros ? Hq; discriminate Hq) items texts Hs HF) as (ws & HU).
-  destruct (real_presence items texts ws (F2_length _ _ _ HF) HU) as [HP _].
+  destruct (static_accept sv None Bsv ltac:(let Hq := fresh in intros ? Hq; discriminate Hq) items texts Hs HF) as (ws & HU & HE).
+  pose proof (eq_trans (map_fst_absorb (combine items texts)) (map_fst_combine items texts (F2_length _ _ _ HF))) as Hl.
+  destruct (real_presence items _ ws Hl HU) as [HP _].
   exists (concat texts).
-  apply (general_date_roundtrip y o d items texts ws H HF HU).
+  apply (general_date_roundtrip y o d items texts ws H HF (or_intror HU)).
   rewrite (date_comb_ext _ _ _ _ HP). apply date_comb_mono. exact Hc.
 Qed.
 
@@ -931,12 +1038,13 @@ Proof.
   destruct (static_render sv on false true false ltac:(intros Hx; discriminate Hx) ltac:(intros _; discriminate) ltac:(intros Hx; discriminate Hx) items Hs Hk) as (texts & HF).
   { rewrite Forall_forall. intros it Hin. unfold frac_class_ok in Hfc. rewrite forallb_forall in Hfc.
     exact (frac_class_item sv k it (Hfc it Hin)). }
-  destruct (static_accept sv on Bsv ltac:(let Hq := fresh in intros ? Hq; discriminate Hq) items texts Hs HF) as (ws & HU).
-  destruct (real_presence items texts ws (F2_length _ _ _ HF) HU) as [HP HN].
-  destruct (general_time_roundtrip t on items texts ws Hvt Hon HF HU
+  destruct (static_accept sv on Bsv ltac:(let Hq := fresh in intros ? Hq; discriminate Hq) items texts Hs HF) as (ws & HU & HE).
+  pose proof (eq_trans (map_fst_absorb (combine items texts)) (map_fst_combine items texts (F2_length _ _ _ HF))) as Hl.
+  destruct (real_presence items _ ws Hl HU) as [HP HN].
+  destruct (general_time_roundtrip t on items texts ws Hvt Hon HF (or_intror HU)
               (time_comb_transfer _ _ Hc HP HN)) as (Hw & Hp & V4 & V5).
   exists (concat texts). split; [exact Hw|]. rewrite Hp.
-  rewrite (time_value_static sv k items texts ws t Bsv eq_refl Hvt Hs Hc HF HU V4 V5). reflexivity.
+  rewrite (time_value_static sv k items _ ws t eq_refl Hvt Hc Hl HE HU V4 V5). reflexivity.
 Qed.
 
 (** NaiveDateTime *)
@@ -956,14 +1064,15 @@ Proof.
   destruct (static_render sv on true true false ltac:(intros _; discriminate) ltac:(intros _; discriminate) ltac:(intros Hx; discriminate Hx) items Hs Hk) as (texts & HF).
   { rewrite Forall_forall. intros it Hin. unfold frac_class_ok in Hfc. rewrite forallb_forall in Hfc.
     exact (frac_class_item sv k it (Hfc it Hin)). }
-  destruct (static_accept sv on Bsv ltac:(let Hq := fresh in intros ? Hq; discriminate Hq) items texts Hs HF) as (ws & HU).
-  destruct (real_presence items texts ws (F2_length _ _ _ HF) HU) as [HP HN].
+  destruct (static_accept sv on Bsv ltac:(let Hq := fresh in intros ? Hq; discriminate Hq) items texts Hs HF) as (ws & HU & HE).
+  pose proof (eq_trans (map_fst_absorb (combine items texts)) (map_fst_combine items texts (F2_length _ _ _ HF))) as Hl.
+  destruct (real_presence items _ ws Hl HU) as [HP HN].
   assert (HCd : date_comb_b y (fst (iso_of_dn (dn_of_yo y o))) (apply_ws ws parsed_new) = true).
   { rewrite (date_comb_ext _ _ _ _ HP). apply date_comb_mono. exact Hcd. }
-  destruct (general_ndt_roundtrip y o d t on items texts ws H Hvt Hon HF HU HCd
+  destruct (general_ndt_roundtrip y o d t on items texts ws H Hvt Hon HF (or_intror HU) HCd
               (time_comb_transfer _ _ Hct HP HN)) as (Hw & Hp & V4 & V5).
   exists (concat texts). split; [exact Hw|]. rewrite Hp.
-  rewrite (time_value_static sv k items texts ws t Bsv eq_refl Hvt Hs Hct HF HU V4 V5). reflexivity.
+  rewrite (time_value_static sv k items _ ws t eq_refl Hvt Hct Hl HE HU V4 V5). reflexivity.
 Qed.
 
 (** * 9. the class is inhabited: the families of the other files and many more are members, by
@@ -1060,5 +1169,10 @@ Example class_format_strings :
   fmt_ndt_class 3 [37;65;44;32;37;100;32;37;66;32;37;89;32;37;73;58;37;77;58;37;83;37;46;51;102;32;37;112] = true /\
   fmt_ndt_class 9 [37;100;47;37;109;47;37;89;32;37;72;58;37;77] = true /\
   fmt_ndt_class 9 [37;70;84;37;84;37;46;102] = true /\
-  fmt_ndt_class 9 [37;68;32;37;82] = false.
+  fmt_ndt_class 9 [37;68;32;37;82] = false /\
+  (* %c = "%a %b %e %H:%M:%S %Y": the white space in front of %e takes the space padding of the day *)
+  fmt_ndt_class 9 [37;99] = true /\
+  (* "%e %B %Y, %l:%M %p" and "%v %T" *)
+  fmt_ndt_class 9 [37;101;32;37;66;32;37;89;44;32;37;108;58;37;77;32;37;112] = true /\
+  fmt_ndt_class 9 [37;118;32;37;84] = true.
 Proof. vm_compute. repeat split. Qed.
